@@ -17,6 +17,7 @@
 #include <vector>
 #include <dirent.h>
 #include <unistd.h>
+#include <new>
 #include <verilated.h>
 #include "Vhex_pkg.h"
 #include "hexasm.hpp"
@@ -50,19 +51,30 @@ static bool readsUnwritten(const char *bin, const std::string &input) {
 void load(const char *filename, const std::unique_ptr<Vhex_pkg> &top);
 int run(const std::unique_ptr<VerilatedContext> &contextp, const std::unique_ptr<Vhex_pkg> &top, bool trace, size_t maxCycles);
 
-struct Out { int exitCode; std::string out; size_t consumed; bool threw; bool timeout; };
+struct Out { int exitCode; std::string out; size_t consumed; bool threw; bool timeout; std::string files; };
+// each tool runs in its own directory so that the simout<n>/simin<n> files of the two do not collide
+static void enterDir(const char *d) { std::string c = std::string("rm -rf ") + d + " && mkdir -p " + d; system(c.c_str()); chdir(d); }
+static std::string collectFiles() { std::string r; for (int i = 0; i < 8; i++) { std::string fn = "simout" + std::to_string(i); std::ifstream f(fn, std::ios::binary); if (f) { std::stringstream ss; ss << f.rdbuf(); r += fn + "=[" + ss.str() + "]"; } } return r; }
 
-static Out runSim(const char *bin, const std::string &input) {
-  std::istringstream in(input); std::ostringstream os; Out o{0, "", 0, false, false};
+static Out runSim(const char *bin0, const std::string &input) {
+  std::string binp = std::string("../") + bin0; const char *bin = binp.c_str();
+  enterDir("sim");
+  std::istringstream in(input); std::ostringstream os; Out o{0, "", 0, false, false, ""};
   try {
     std::unique_ptr<hexsim::Processor> p(new hexsim::Processor(in, os, 3000000));
     p->load(bin); o.exitCode = p->run();
   } catch (std::exception &) { o.threw = true; }
+  o.files = collectFiles(); chdir("..");
   o.out = os.str(); in.clear(); std::streampos pos = in.tellg(); o.consumed = pos < 0 ? input.size() : (size_t)pos;
   return o;
 }
-static Out runTb(const char *bin, const std::string &input, int seed) {
-  Out o{0, "", 0, false, false};
+// hextb's HexSimIO `io` is a global that lives across runs: files it opened stay open; give every run a fresh object
+extern hex::HexSimIO io;
+static Out runTb(const char *bin0, const std::string &input, int seed) {
+  std::string binp = std::string("../") + bin0; const char *bin = binp.c_str();
+  enterDir("tb");
+  io.~HexSimIO(); new (&io) hex::HexSimIO(std::cin, std::cout);
+  Out o{0, "", 0, false, false, ""};
   std::istringstream in(input); std::ostringstream os;
   auto *oldin = std::cin.rdbuf(in.rdbuf()); auto *oldout = std::cout.rdbuf(os.rdbuf());
   std::cin.clear();
@@ -74,6 +86,8 @@ static Out runTb(const char *bin, const std::string &input, int seed) {
     o.exitCode = run(ctx, top, false, 3000000);
   } catch (std::exception &) { o.threw = true; }
   std::cin.rdbuf(oldin); std::cout.rdbuf(oldout);
+  io.~HexSimIO(); new (&io) hex::HexSimIO(std::cin, std::cout);   // closes (flushes) the stream files
+  o.files = collectFiles(); chdir("..");
   o.out = os.str(); size_t nl = o.out.find('\n'); if (nl != std::string::npos) o.out = o.out.substr(nl + 1);   // drop the load banner
   in.clear(); std::streampos pos = in.tellg(); o.consumed = pos < 0 ? input.size() : (size_t)pos;
   return o;
@@ -84,6 +98,7 @@ static bool same(const Out &a, const Out &b, std::string &why) {
   if ((a.exitCode & 0xFF) != (b.exitCode & 0xFF)) { why = "exit status " + std::to_string(a.exitCode & 0xFF) + " (hexsim) vs " + std::to_string(b.exitCode & 0xFF) + " (hextb)"; return false; }
   if (a.out != b.out) { why = "standard output differs"; return false; }
   if (a.consumed != b.consumed) { why = "input consumption differs"; return false; }
+  if (a.files != b.files) { why = "simout files differ: hexsim " + a.files + " vs hextb " + b.files; return false; }
   return true;
 }
 static bool compileX(const std::string &path, const char *bin) {
@@ -104,7 +119,8 @@ static std::string genAsm(std::mt19937_64 &rng) {
     case 3: o << "STAM v" << (rng() % 2) << "\nLDAM v" << (rng() % 2) << "\n"; break;
     case 4: o << "BRZ s" << i << "\nLDAC 7\ns" << i << "\n"; break;
     case 5: o << "BRN n" << i << "\nLDBC 3\nOPR ADD\nn" << i << "\n"; break;
-    case 6: { int strm = (rng() % 4 == 0) ? 0 : (int)(rng() % 256); o << "LDBM 1\nSTAI 2\nLDAC " << strm << "\nSTAI 3\nLDAC 1\nOPR SVC\n"; break; }   // write(areg low byte, stream<256)
+    case 6: { static const unsigned long strms[] = {0, 255, 256, 511, 1024, 2047, 2048, 2304, 4096, 65536 + 512, 2147483904ul, 4294967040ul};
+              unsigned long strm = (rng() % 3 == 0) ? strms[rng() % 12] : (unsigned long)(rng() % 256); o << "LDBM 1\nSTAI 2\nLDAC " << strm << "\nSTAI 3\nLDAC 1\nOPR SVC\n"; break; }   // write(areg low byte, stream<256)
     case 7: o << "LDBM 1\nLDAC 0\nSTAI 2\nLDAC 2\nOPR SVC\nLDBM 1\nLDAI 0\nLDBM 1\nLDBI 1\nLDAM 1\nLDAI 1\n"; break;                           // read(stream 0) -> mem[sp+1]; areg = it
     case 8: { int strm = (int)(rng() % 256); o << "LDBM 1\nSTAI 2\nLDAC " << strm << "\nSTAI 3\nLDAC 1\nOPR SVC\nOPR SVC\n"; break; }                 // the same write twice: two SVCs back to back
     case 9: o << "LDBM 1\nLDAC 0\nSTAI 2\nLDAC 2\nOPR SVC\nOPR SVC\nLDBM 1\nLDAI 1\n"; break;                                               // two reads back to back
